@@ -22,7 +22,8 @@ pub fn harness_dir() -> PathBuf {
 
 pub fn target_dir() -> PathBuf {
     if std::env::var_os("VERIF_REPO").is_some() {
-        harness_dir().join("target-alt")
+        // VERIF_ALT names the scratch target directory (several sensitivity runs side by side)
+        harness_dir().join(std::env::var("VERIF_ALT").unwrap_or_else(|_| "target-alt".into()))
     } else {
         harness_dir().join("target")
     }
